@@ -195,7 +195,11 @@ impl DefaultMetricSearcher {
         if idx_filename == &PathBuf::from("") {
             return Ok(false);
         }
-        let mut idx_file = open_file_and_seek_to(idx_filename, cached_pos.cur_offset_in_idx)?;
+        let mut idx_file = match open_file_and_seek_to(idx_filename, cached_pos.cur_offset_in_idx) {
+            Ok(idx_file) => idx_file,
+            // the cached file has been removed by the writer's retention since: the cache cannot be used
+            Err(_) => return Ok(false),
+        };
 
         let mut buffer: [u8; 8] = [0; 8];
         if idx_file.read_exact(&mut buffer).is_err() {
